@@ -277,3 +277,19 @@ func NeverAfter(c *Ctx, fn *ssa.Function, a Matcher, aName string, b Matcher, bN
 
 // AckOne is the exported form of the per-path test used by AckCheck.
 func AckOne(rp RetPath, calls []ssa.CallInstruction) bool { return ackOne(rp, calls) }
+
+// RetOperand returns result idx of a Return with the defer-spill undone
+// ("*t0 = x; rundefers; t = *t0; return t" => x).
+func RetOperand(ret *ssa.Return, idx int) ssa.Value {
+	v := ret.Results[idx]
+	if ld, ok := v.(*ssa.UnOp); ok && ld.Op == token.MUL {
+		if al, ok := ld.X.(*ssa.Alloc); ok {
+			for _, in := range ret.Block().Instrs {
+				if st, ok := in.(*ssa.Store); ok && st.Addr == al {
+					v = st.Val
+				}
+			}
+		}
+	}
+	return v
+}
